@@ -400,7 +400,7 @@ def alphabet(clean, level):
             # formerly outside the theorems: 0-d arrays, ComponentIDs the dataset has never seen, ids that
             # are not components, components without an array
             ["add", 2, []], ["remove", ["x", 0]], ["updateId", ["m", 0], ["x", 0]],
-            ["updateComponents", [[["c", 0], "same"]]], ["rename", ["o", 0], 2],
+            ["updateComponents", [[["c", 0], "same"]]], ["rename", ["o", 0], 2], ["updateId", ["o", 3], ["f", 1]],
         ]
         if level >= 1:
             A += [
@@ -428,7 +428,7 @@ def alphabet(clean, level):
                 # brand-new / foreign ids
                 ["addAt", ["x", 0], "same"], ["addAt", ["x", 0], []], ["reorder", "fresh"],
                 ["updateId", ["x", 0], ["f", 1]], ["updateId", ["x", 0], ["x", 0]], ["updateId", ["o", 3], ["x", 0]],
-                ["addDerived", False, 2, [["x", 0]]], ["addDerived", True, 2, [["x", 0]]],
+                ["addDerived", False, 2, [["x", 0]]], ["addDerived", True, 2, [["x", 0]]], ["addDerived", False, 2, [["o", 3]]],
                 ["updateComponents", [[["x", 0], "same"]]], ["rename", ["x", 0], 1], ["rename", ["o", 1], 1],
                 ["rename", ["o", 3], 3],
                 # update_components on components without an array (F24), update_id of (inputs of) derived components
